@@ -1,5 +1,5 @@
 (* C13/Witness.v — non-vacuity examples (vm_compute). *)
-From Verif Require Import Common.Base C13.Model C13.Spec C13.Proofs1 C13.Proofs2 C13.Proofs3 C13.Proofs4 C13.Proofs5 C13.Instances.
+From Verif Require Import Common.Base C13.Model C13.Spec C13.Proofs1 C13.Proofs2 C13.Proofs3 C13.Proofs4 C13.Proofs5 C13.Proofs6 C13.Proofs7 C13.Proofs8 C13.Instances.
 From Verif Require Import Generated.C13CfgSchema.
 From Coq Require Import String.
 Open Scope string_scope.
@@ -176,3 +176,43 @@ Proof. vm_compute. intuition discriminate. Qed.
 
 Example e1_hyp : ev_get ["headers"] e1 = Some (EStrMap true [("Authorization", "token-1"); ("X-K", "token-2")]).
 Proof. reflexivity. Qed.
+
+(* ---- kinds, omitempty, round trip ---------------------------------------------------------- *)
+Example kinds_1 : decode_leaf KInt (WStr "7") = DErr /\ decode_leaf KBool (WInt 1) = DErr /\
+                  decode_leaf KString (WBool true) = DErr /\ decode_leaf KStruct (WStr "x") = DErr /\
+                  decode_leaf KUint (WInt (-3)) = DErr /\ decode_leaf KStrSlice (WInt 3) = DErr.
+Proof. repeat split. Qed.
+Example kinds_2 : decode_leaf KStrSlice (WStr "a,b,,c") = DList ["a"; "b"; ""; "c"] /\ decode_leaf KStrSlice (WStr "") = DList [].
+Proof. vm_compute. split; reflexivity. Qed.
+Example kinds_3 : decode_leaf KInt (WFloat 11 true) = DNum 11 false.   (* 11.5 written, 11 stored *)
+Proof. reflexivity. Qed.
+Example kinds_hyp : truncating KFloat (WFloat 11 true) = false /\ family_mismatch KInt (WStr "7") = true.
+Proof. split; reflexivity. Qed.
+
+Definition od : otv := ORec false [("endpoint", OSc true true ""); ("write_buffer_size", OSc true false "524288");
+                                   ("tls", ORec true [("insecure", OSc false true "false")])].
+Definition ov1 : otv := ORec false [("endpoint", OSc true false "a:1"); ("write_buffer_size", OSc true false "9");
+                                    ("tls", ORec true [("insecure", OSc false true "false")])].
+Example ov1_encode : encode_o ov1 = CMap [("endpoint", CScalar "a:1"); ("write_buffer_size", CScalar "9")].
+Proof. vm_compute. reflexivity. Qed.
+Lemma nodup3 (a b c : string) : a <> b -> a <> c -> b <> c -> NoDup [a; b; c].
+Proof. intros. repeat constructor; cbn; intuition congruence. Qed.
+Example ov1_compat : compat od ov1.
+Proof.
+  apply C_rec; [cbn; apply nodup3; discriminate|].
+  apply Forall2_cons; [cbn; split; [reflexivity|split; [constructor|discriminate]]|].
+  apply Forall2_cons; [cbn; split; [reflexivity|split; [constructor|discriminate]]|].
+  apply Forall2_cons; [|apply Forall2_nil].
+  cbn. split; [reflexivity|]. split; [|reflexivity].
+  apply C_rec; [cbn; repeat constructor; intros []|].
+  apply Forall2_cons; [|apply Forall2_nil]. cbn. split; [reflexivity|split; [constructor|discriminate]].
+Qed.
+Example ov1_wf : o_wf ov1.
+Proof.
+  apply W_rec; [cbn; apply nodup3; discriminate|].
+  repeat (apply Forall_cons || apply Forall_nil); cbn; try constructor.
+  - cbn. repeat constructor. intros [].
+  - repeat constructor.
+Qed.
+Example ov1_round : overlay (o_strip od) (Some (encode_o ov1)) = o_strip ov1.
+Proof. vm_compute. reflexivity. Qed.
